@@ -324,12 +324,29 @@ func networkAndClusterFor(nw network.ID, c cluster.ID) networkAndCluster {
 }
 
 // SortGateways sorts the array so that it's stable.
+// Callers pass the members of a set (or the keys of a map) of NetworkGateway, so the comparison must
+// cover every field: gateways that only differ in, say, the cluster would otherwise keep the map iteration order.
 func SortGateways(gws []NetworkGateway) []NetworkGateway {
 	return slices.SortFunc(gws, func(a, b NetworkGateway) int {
 		if r := cmp.Compare(a.Addr, b.Addr); r != 0 {
 			return r
 		}
-		return cmp.Compare(a.Port, b.Port)
+		if r := cmp.Compare(a.Port, b.Port); r != 0 {
+			return r
+		}
+		if r := cmp.Compare(a.HBONEPort, b.HBONEPort); r != 0 {
+			return r
+		}
+		if r := cmp.Compare(a.Network, b.Network); r != 0 {
+			return r
+		}
+		if r := cmp.Compare(a.Cluster, b.Cluster); r != 0 {
+			return r
+		}
+		if r := cmp.Compare(a.ServiceAccount.Namespace, b.ServiceAccount.Namespace); r != 0 {
+			return r
+		}
+		return cmp.Compare(a.ServiceAccount.Name, b.ServiceAccount.Name)
 	})
 }
 
